@@ -29,6 +29,28 @@ CLAIMED["C07"] = dict(
     technique="symbolic co-execution with probe-instrumented statement templates under CrossHair (z3)",
 )
 
+CLAIMED["C01"] = dict(
+    category="translation_validation",
+    text="The 16 repository scripts, every feature of the catalogue alone, every ordered pair in sequence and every nested pair are converted by the real converter under the option combinations; exec(source) and eval(converted) are co-executed under CrossHair with symbolic ints a, b and a symbolic short string s; recorded print events and all final user globals must coincide, only __ol_* names / itertools / importlib may be added.",
+    design_ref="DESIGN.md section 4, C01",
+    note="Trusted: CPython, CrossHair+z3, the recording print stand-in (real print + stdout text on replay). Bounds: catalogue of vf/families/c01.py (2255 programs; quick tier: scripts + 41 singles + 170 seed-rotated pairs), strings <= 2 chars, small ranges for features that force realisation (f-string formatting, dict keys). Host = runtime = 3.12 (other interpreters: C15).",
+    technique="symbolic co-execution of source and converted text under CrossHair (z3)",
+)
+CLAIMED["C11"] = dict(
+    category="translation_validation",
+    text="For every parameter-list shape (<= 2 parameters per kind, every legal default mask; 756 shapes) the def is converted by the real converter and a symbolic call battery (number of positionals, keyword subset incl. an unknown name, direct/star call, symbolic default values) is applied to the function objects of exec(source) and eval(converted): both must return the same bound values or both raise TypeError.",
+    design_ref="DESIGN.md section 4, C11",
+    note="Trusted: CPython's argument binding (both callables are real functions), CrossHair+z3. Bounds: quick = all shapes with <= 2 parameters + 170 seed-rotated shapes, <= 3 positionals, keyword subsets none/singles/two pairs; thorough = all 756 shapes, <= 5 positionals, all keyword subsets up to 96. Annotations are metadata.",
+    technique="symbolic call-shape battery over source and converted function objects under CrossHair (z3)",
+)
+CLAIMED["C12"] = dict(
+    category="translation_validation",
+    text="Class skeletons (header: bases x metaclass x class keyword x decorators x placement; members: 26 kinds incl. static/class methods, property, nested class, lambdas, comprehensions, body control flow, zero/two-argument super, __init_subclass__) are converted by the real converter and co-executed with the source under CrossHair with symbolic attribute values/arguments: canonical vars(cls), MRO, metaclass and every member called on an instance and a subclass must coincide.",
+    design_ref="DESIGN.md section 4, C12",
+    note="Trusted: CPython, CrossHair+z3 (contract enforcement switched off for the programs under test, see DESIGN 2.3). Bounds: 541 skeletons (every legal header with 3 rotating members, every member alone, every member pair with the default header); metadata (__doc__, __qualname__, __module__, implicit staticmethod wrapper of __new__) not compared.",
+    technique="symbolic co-execution of source and converted text under CrossHair (z3)",
+)
+
 NOT_YET = {}
 
 NOT_APPLICABLE = {
